@@ -8,7 +8,8 @@ TEXT = ('The transition relation of PlaybackStateManager is extracted from the M
         'update by path-sensitive exploration over the discriminant of `state` and compared with the documented life '
         'cycle (Stopped has no outgoing edge); fade-driven edges are guarded by the fade tween finishing; fade targets are '
         'the SILENCE/IDENTITY constants; every state change is mirrored to the handle; the decode tables match the enum; '
-        'non-advancing states return through zero-fill without touching position; the sweep that unloads finished sounds runs on every path of every callback. Tween timing and gain values are not decided.')
+        'non-advancing states return through zero-fill without touching position; the sweep that unloads finished sounds runs on every path of every callback. Tween timing and gain values are not decided.'
+        ' The static sound feeds its resampler None whenever the transport is not playing (so every finite sound drains and stops).')
 TECHNIQUE = 'MIR path-sensitive state-machine extraction + CFG must-pass / table rules'
 
 PSM = 'playback_state_manager::PlaybackStateManager'
